@@ -378,7 +378,7 @@ def load_known(prop):
         with open(p) as f:
             for line in f:
                 line = line.strip()
-                if not line or line.startswith("#"):
+                if not line or line.startswith("#") or line.startswith("fixed:"):
                     continue
                 j = json.loads(line)
                 if j.get("property") == prop:
